@@ -364,6 +364,25 @@ def install(eng):
     def _join(eng, st, args, kw, node):
         return one(st, z3.String(uid('join')))
 
+    @reg('functools.partial')
+    def _partial(eng, st, args, kw, node):
+        return one(st, Opaque())
+
+    @reg('map_has')
+    def _map_has(eng, st, args, kw, node):
+        from .contract import AbsMap
+        return one(st, eng.absmap_funcs(AbsMap(args[0], None))(to_int(args[1])))
+
+    @reg('map_get')
+    def _map_get(eng, st, args, kw, node):
+        from .kinds import _leaf
+        return one(st, _leaf(z3.IntSort(), 'val_' + args[0], (args[1],)))
+
+    @reg('map_field')
+    def _map_field(eng, st, args, kw, node):
+        from .kinds import _leaf
+        return one(st, _leaf(z3.IntSort(), 'val_%s.%s' % (args[0], args[2]), (args[1],)))
+
     @reg('divmod')
     def _divmod(eng, st, args, kw, node):
         a, b = args
